@@ -7,6 +7,7 @@ package work_package
 import (
 	"bytes"
 	"fmt"
+	"strings"
 	"testing"
 
 	"github.com/New-JAMneration/JAM-Protocol/PVM"
@@ -375,7 +376,7 @@ func c32CheckA(r *vlib.Run, c c32Case) {
 }
 
 
-// ---------- W: WorkReportCompute with a stubbed refine (multi-item assembly, GP 14.11 / 14.16) ----------
+// ---------- W / P: WorkReportCompute with a stubbed refine (multi-item assembly, GP 14.11 / 14.16) ----------
 
 const (
 	c32OutOk       = iota // refine ok, returns exactly ExportCount segments
@@ -386,7 +387,39 @@ const (
 
 var c32OutcomeNames = []string{"ok", "error", "bad-export-count", "oversize"}
 
-type c32Refine struct{ items []int }
+// what the stubbed refine hands back for one item
+type c32Plan struct {
+	ne      int                      // the item's declared export count w_e
+	nSegs   int                      // segments returned by refine
+	rLen    int                      // length of the refine output blob (0 for an error result)
+	result  types.WorkExecResultType // refine's own result
+	name    string
+	verdict string // reference: result kind the digest must record (GP 14.11 precedence)
+}
+
+var c32AuthOutput = []byte{0xA0, 0xA1}
+
+// c32Judge applies GP 14.11 to the plans in order: with z = |o| + Σ |r_k| over the earlier items whose result is a blob,
+//   |r| + z > W_R  -> output-oversize;  otherwise |e| != w_e -> bad-exports;  otherwise an error r -> that error;  else ok.
+func c32Judge(plans []c32Plan) {
+	z := len(c32AuthOutput)
+	for i := range plans {
+		pl := &plans[i]
+		switch {
+		case pl.rLen+z > types.WorkReportOutputBlobsMaximumSize:
+			pl.verdict = string(types.WorkExecResultReportOversize)
+		case pl.nSegs != pl.ne:
+			pl.verdict = string(types.WorkExecResultBadExports)
+		case pl.result != types.WorkExecResultOk:
+			pl.verdict = string(pl.result)
+		default:
+			pl.verdict = "ok"
+			z += pl.rLen
+		}
+	}
+}
+
+type c32Refine struct{ plans []c32Plan }
 
 func c32Segment(item, k int) types.ExportSegment {
 	var s types.ExportSegment
@@ -398,44 +431,108 @@ func c32Segment(item, k int) types.ExportSegment {
 }
 
 func (c32Refine) Psi_I(p types.WorkPackage, c types.CoreIndex, code types.ByteSequence) PVM.Psi_I_ReturnType {
-	return PVM.Psi_I_ReturnType{WorkExecResult: types.WorkExecResultOk, WorkOutput: []byte{0xA0, 0xA1}, Gas: 5}
+	return PVM.Psi_I_ReturnType{WorkExecResult: types.WorkExecResultOk, WorkOutput: append([]byte(nil), c32AuthOutput...), Gas: 5}
 }
 
 func (x c32Refine) RefineInvoke(in PVM.RefineInput) PVM.RefineOutput {
 	j := int(in.WorkItemIndex)
-	ne, oc := x.items[j]/4, x.items[j]%4
-	out := PVM.RefineOutput{WorkResult: types.WorkExecResultOk, RefineOutput: []byte{byte(j), 7, 7}, Gas: types.Gas(100 + j)}
-	n := ne
-	switch oc {
-	case c32OutError:
-		out.WorkResult = types.WorkExecResultPanic
-		out.RefineOutput = nil
-	case c32OutBadCount:
-		n = ne + 1
-	case c32OutOversize:
-		out.RefineOutput = make([]byte, types.WorkReportOutputBlobsMaximumSize+1)
+	pl := x.plans[j]
+	out := PVM.RefineOutput{WorkResult: pl.result, Gas: types.Gas(100 + j)}
+	if pl.result == types.WorkExecResultOk {
+		out.RefineOutput = make([]byte, pl.rLen)
+		for i := range out.RefineOutput {
+			out.RefineOutput[i] = byte(j + 7)
+		}
 	}
-	for k := 0; k < n; k++ {
+	for k := 0; k < pl.nSegs; k++ {
 		out.ExportSegment = append(out.ExportSegment, c32Segment(j, k))
 	}
 	return out
 }
 
+// part W item code: 4*exportCount + outcome
+func c32PlansW(items []int) []c32Plan {
+	var plans []c32Plan
+	for _, it := range items {
+		ne, oc := it/4, it%4
+		pl := c32Plan{ne: ne, nSegs: ne, rLen: 3, result: types.WorkExecResultOk, name: fmt.Sprintf("%s/e=%d", c32OutcomeNames[oc], ne)}
+		switch oc {
+		case c32OutError:
+			pl.result, pl.rLen = types.WorkExecResultPanic, 0
+		case c32OutBadCount:
+			pl.nSegs = ne + 1
+		case c32OutOversize:
+			pl.rLen = types.WorkReportOutputBlobsMaximumSize + 1
+		}
+		plans = append(plans, pl)
+	}
+	c32Judge(plans)
+	return plans
+}
+
+// part P item code: 10*exportCount + option; options 0..5 = refine ok with (segment count right, wrong) x (output
+// small, filling the cumulative output exactly to W_R, one byte over W_R); 6,7 = panic with count right/wrong;
+// 8,9 = out-of-gas with count right/wrong. The sizes depend on the outputs accepted from the earlier items.
+func c32PlansP(items []int) []c32Plan {
+	var plans []c32Plan
+	z := len(c32AuthOutput)
+	for _, it := range items {
+		ne, opt := it/10, it%10
+		pl := c32Plan{ne: ne, nSegs: ne, result: types.WorkExecResultOk}
+		wrong := false
+		size := "-"
+		switch {
+		case opt < 6:
+			wrong = opt/3 == 1
+			switch opt % 3 {
+			case 0:
+				pl.rLen, size = min(3, types.WorkReportOutputBlobsMaximumSize-z), "small"
+			case 1:
+				pl.rLen, size = types.WorkReportOutputBlobsMaximumSize-z, "at-limit"
+			case 2:
+				pl.rLen, size = types.WorkReportOutputBlobsMaximumSize-z+1, "over-limit"
+			}
+		case opt < 8:
+			pl.result, wrong = types.WorkExecResultPanic, opt == 7
+		default:
+			pl.result, wrong = types.WorkExecResultOutOfGas, opt == 9
+		}
+		if wrong {
+			pl.nSegs = ne + 1
+		}
+		pl.name = fmt.Sprintf("%s/e=%d/segments=%s/output=%s", pl.result, ne, map[bool]string{false: "right", true: "wrong"}[wrong], size)
+		plans = append(plans, pl)
+		c32Judge(plans)
+		if plans[len(plans)-1].verdict == "ok" {
+			z += pl.rLen
+		}
+	}
+	c32Judge(plans)
+	return plans
+}
+
 func c32CheckW(r *vlib.Run, c c32Case) {
 	types.SetTinyMode()
+	var plans []c32Plan
+	if c.Part == "P" {
+		plans = c32PlansP(c.Items)
+	} else {
+		plans = c32PlansW(c.Items)
+	}
 	wp := &types.WorkPackage{AuthCodeHost: 3}
 	var want []types.ExportSegment // GP 14.11: the item's exports if it succeeded, else ExportCount zero segments
-	var wantTypes []string
 	total := 0
 	anyFailWithSlot, laterOkExports := false, false
-	for j, it := range c.Items {
-		ne, oc := it/4, it%4
-		item := types.WorkItem{Service: types.ServiceID(40 + j), ExportCount: types.U16(ne), Payload: types.ByteSequence{byte(j)}, AccumulateGasLimit: types.Gas(9 + j)}
+	var names []string
+	multi := 0 // items on which more than one failure condition holds at once
+	zz := len(c32AuthOutput)
+	for j, pl := range plans {
+		item := types.WorkItem{Service: types.ServiceID(40 + j), ExportCount: types.U16(pl.ne), Payload: types.ByteSequence{byte(j)}, AccumulateGasLimit: types.Gas(9 + j)}
 		item.CodeHash[0] = byte(j + 1)
 		wp.Items = append(wp.Items, item)
-		total += ne
-		for k := 0; k < ne; k++ {
-			if oc == c32OutOk {
+		total += pl.ne
+		for k := 0; k < pl.ne; k++ {
+			if pl.verdict == "ok" {
 				want = append(want, c32Segment(j, k))
 				if anyFailWithSlot {
 					laterOkExports = true
@@ -444,14 +541,26 @@ func c32CheckW(r *vlib.Run, c c32Case) {
 				want = append(want, types.ExportSegment{})
 			}
 		}
-		if oc != c32OutOk && ne > 0 {
+		if pl.verdict != "ok" && pl.ne > 0 {
 			anyFailWithSlot = true
 		}
-		wantTypes = append(wantTypes, []string{"ok", "panic", "bad-exports", "output-oversize"}[oc])
-	}
-	var names []string
-	for _, it := range c.Items {
-		names = append(names, fmt.Sprintf("%s/e=%d", c32OutcomeNames[it%4], it/4))
+		conds := 0
+		if pl.rLen+zz > types.WorkReportOutputBlobsMaximumSize {
+			conds++
+		}
+		if pl.nSegs != pl.ne {
+			conds++
+		}
+		if pl.result != types.WorkExecResultOk {
+			conds++
+		}
+		if conds > 1 {
+			multi++
+		}
+		if pl.verdict == "ok" {
+			zz += pl.rLen
+		}
+		names = append(names, pl.name)
 	}
 	desc := fmt.Sprintf("items %v", names)
 	key := fmt.Sprintf("items=%d;failed-slot-before-ok-exports=%v", len(c.Items), laterOkExports)
@@ -462,10 +571,15 @@ func c32CheckW(r *vlib.Run, c c32Case) {
 	var rep types.WorkReport
 	var err error
 	p, msg, site := vlib.Guard(func() {
-		rep, err = WorkReportCompute(wp, 1, pa, types.ByteSequence{1}, PVM.ExtrinsicDataMap{}, nil, types.ServiceAccountState{}, append([]byte(nil), bundle...), h, c32Refine{items: c.Items})
+		rep, err = WorkReportCompute(wp, 1, pa, types.ByteSequence{1}, PVM.ExtrinsicDataMap{}, nil, types.ServiceAccountState{}, append([]byte(nil), bundle...), h, c32Refine{plans: plans})
 	})
 	r.Transition()
-	r.Class(fmt.Sprintf("W items=%d exports=%d failed-slot-before-ok-exports=%v outcome=%v", len(c.Items), min(total, 3), laterOkExports, map[bool]string{true: "panic", false: "returned"}[p]))
+	if c.Part == "P" {
+		last := plans[len(plans)-1]
+		r.Class(fmt.Sprintf("P items=%d last=%s->%s earlier-accepted-output=%v", len(plans), last.name[:strings.Index(last.name, "/")]+last.name[strings.Index(last.name, "/segments"):], last.verdict, zz > len(c32AuthOutput) && len(plans) > 1))
+	} else {
+		r.Class(fmt.Sprintf("W items=%d exports=%d failed-slot-before-ok-exports=%v outcome=%v", len(c.Items), min(total, 3), laterOkExports, map[bool]string{true: "panic", false: "returned"}[p]))
+	}
 	if p {
 		r.Violation("work_package.WorkReportCompute", "go-panic", key, fmt.Sprintf("%s: Go panic in %s: %s", desc, site, msg), c)
 		return
@@ -487,26 +601,51 @@ func c32CheckW(r *vlib.Run, c c32Case) {
 	}
 	// the erasure root must commit to the same sequence: differential against the repository's own A on the expected sequence
 	var ref types.WorkPackageSpec
-	if p2, _, _ := vlib.Guard(func() { ref, err = A(h, append([]byte(nil), bundle...), want) }); !p2 && err == nil {
+	if c.Part != "W" {
+		// (part P re-uses the export sequences of part W; the differential is not repeated there)
+	} else if p2, _, _ := vlib.Guard(func() { ref, err = A(h, append([]byte(nil), bundle...), want) }); !p2 && err == nil {
 		r.Transition()
 		if ref.ErasureRoot != spec.ErasureRoot {
 			r.Violation("work_package.WorkReportCompute", "erasure-root-of-other-sequence", key, fmt.Sprintf("%s: erasure root %x differs from A(expected export sequence) = %x", desc, spec.ErasureRoot[:8], ref.ErasureRoot[:8]), c)
 		}
 	}
-	if len(rep.Results) != len(c.Items) {
+	if len(rep.Results) != len(plans) {
 		r.Violation("work_package.WorkReportCompute", "wrong-result-count", key, fmt.Sprintf("%s: %d results", desc, len(rep.Results)), c)
 		return
 	}
+	zz = len(c32AuthOutput)
 	for j, res := range rep.Results {
-		if string(res.Result.Type) != wantTypes[j] {
-			r.Violation("work_package.WorkReportCompute", "wrong-result", "outcome="+c32OutcomeNames[c.Items[j]%4], fmt.Sprintf("%s: item %d result %s, expected %s", desc, j, res.Result.Type, wantTypes[j]), c)
+		pl := plans[j]
+		// which failure conditions hold on this item (the key of a wrong result kind)
+		var conds []string
+		if pl.rLen+zz > types.WorkReportOutputBlobsMaximumSize {
+			conds = append(conds, "output-over-limit")
 		}
-		if res.ServiceID != wp.Items[j].Service || uint64(res.RefineLoad.GasUsed) != uint64(100+j) || uint64(res.RefineLoad.Exports) != uint64(c.Items[j]/4) {
-			r.Violation("work_package.WorkReportCompute", "wrong-digest", "outcome="+c32OutcomeNames[c.Items[j]%4], fmt.Sprintf("%s: item %d digest service %d gas %d exports %d", desc, j, res.ServiceID, res.RefineLoad.GasUsed, res.RefineLoad.Exports), c)
+		if pl.nSegs != pl.ne {
+			conds = append(conds, "wrong-segment-count")
+		}
+		if pl.result != types.WorkExecResultOk {
+			conds = append(conds, "refine-error")
+		}
+		if len(conds) == 0 {
+			conds = []string{"none"}
+		}
+		ck := "conditions=" + strings.Join(conds, "+")
+		if string(res.Result.Type) != pl.verdict {
+			r.Violation("work_package.WorkReportCompute", "wrong-result", ck, fmt.Sprintf("%s: item %d records result %s, GP 14.11 gives %s (cumulative accepted output before it: %d of W_R = %d)", desc, j, res.Result.Type, pl.verdict, zz, types.WorkReportOutputBlobsMaximumSize), c)
+		} else if pl.verdict == "ok" && len(res.Result.Data) != pl.rLen {
+			r.Violation("work_package.WorkReportCompute", "wrong-result", ck, fmt.Sprintf("%s: item %d ok result carries %d bytes, refine returned %d", desc, j, len(res.Result.Data), pl.rLen), c)
+		}
+		if res.ServiceID != wp.Items[j].Service || uint64(res.RefineLoad.GasUsed) != uint64(100+j) || uint64(res.RefineLoad.Exports) != uint64(pl.ne) {
+			r.Violation("work_package.WorkReportCompute", "wrong-digest", ck, fmt.Sprintf("%s: item %d digest service %d gas %d exports %d", desc, j, res.ServiceID, res.RefineLoad.GasUsed, res.RefineLoad.Exports), c)
+		}
+		if pl.verdict == "ok" {
+			zz += pl.rLen
 		}
 	}
+	_ = multi
 	if r.WantSample() && len(c.Items) == 2 && laterOkExports {
-		r.Sample(map[string]interface{}{"part": "W", "items": names, "exports_root": vlib.Hex(spec.ExportsRoot[:]), "exports_count": spec.ExportsCount})
+		r.Sample(map[string]interface{}{"part": c.Part, "items": names, "exports_root": vlib.Hex(spec.ExportsRoot[:]), "exports_count": spec.ExportsCount})
 	}
 }
 
@@ -518,7 +657,7 @@ func TestVerif_C32(t *testing.T) {
 	if r.IsReplay(&rc) {
 		if rc.Part == "A" {
 			c32CheckA(r, rc)
-		} else if rc.Part == "W" {
+		} else if rc.Part == "W" || rc.Part == "P" {
 			c32CheckW(r, rc)
 		} else {
 			c32CheckC(r, rc)
@@ -579,6 +718,23 @@ func TestVerif_C32(t *testing.T) {
 			}
 			r.Space(1)
 			c32CheckW(r, c32Case{Part: "W", Items: append([]int(nil), sq...)})
+		})
+	}
+	// P: precedence when several failure conditions hold at once (GP 14.11): every sequence of <= 3 items over
+	// export count {0,1,2} x 10 options (ok x segment count right/wrong x output small / exactly at W_R / over W_R given
+	// the outputs accepted so far; panic and out-of-gas x count right/wrong)
+	for n := 1; n <= 3; n++ {
+		vlib.Sequences(30, n, func(sq []int) {
+			idx++
+			if !r.Mine(idx) {
+				return
+			}
+			items := make([]int, len(sq))
+			for i, x := range sq {
+				items[i] = 10*(x/10) + x%10
+			}
+			r.Space(1)
+			c32CheckW(r, c32Case{Part: "P", Items: items})
 		})
 	}
 	if vlib.Pick(r, false, true) {
